@@ -24,6 +24,7 @@ class Walker:
         self.relations = relations
         self.deep = deep
         self._lexspec = {}
+        self._second = []
 
     def call(self, name):
         if self.rec is not None:
@@ -151,8 +152,15 @@ class Walker:
         if self.relations:
             d['relations'] = {name: [self.k(t, 'Synset.relations') for t in tgts]
                               for name, tgts in ss.relations().items()}
-            d['related'] = [self.k(t, 'Synset.get_related') for t in ss.get_related()]
+            targets = ss.get_related()
+            d['related'] = [self.k(t, 'Synset.get_related') for t in targets]
             d['relmap'] = self._relmap(ss, 'Synset.relation_map')
+            # second hop from the objects a relation handed out (checked after the walk against what the same synset
+            # answers when it is enumerated directly: equal objects, same Wordnet, same answer)
+            for t, tkey in list(zip(targets, d['related']))[:3]:
+                if not tkey.startswith('*INFERRED*'):
+                    self.call('Synset.get_related(second hop)')
+                    self._second.append((tkey, [self.k(x, 'Synset.get_related(second hop)') for x in t.get_related()]))
         return d
 
     # ------------------------------------------------------------------
@@ -182,6 +190,11 @@ class Walker:
         self.call('Wordnet.ilis')
         obs['ilis'] = [self.ili(i) for i in w.ilis()]
         obs['byid'] = self.by_id(w, obs)
+        for tkey, got in self._second:
+            direct = obs['synsets'].get(tkey)
+            if isinstance(direct, dict) and 'related' in direct and got != direct['related']:
+                obs['byid'][f'second-hop({tkey})'] = (f'get_related() of {tkey} reached as a relation target gives {got}, '
+                                                     f'the same synset enumerated directly gives {direct["related"]}')
         return obs
 
     def by_id(self, w, obs):
